@@ -137,8 +137,15 @@ class Session:
             tasks = list(pend)
             active = []
             total = 0
+            budget = float(os.environ.get('VERIF_HARNESS_SECONDS', '0') or 0)
             with mp.Pool(jobs) as pool:
                 while tasks or active:
+                    if budget and time.time() - t0 > budget:
+                        # wall-clock budget of one harness (quick tier): what was found so far is reported, the rest is
+                        # declared unexplored (inconclusive), never silently dropped
+                        sm.error = ('inconclusive', 'exploration budget of %d s exhausted after %d paths (%d sub-trees unexplored)'
+                                    % (budget, sm.paths, len(tasks) + len(active)))
+                        break
                     while tasks and len(active) < jobs * 2:
                         active.append(pool.apply_async(_worker, (tasks.pop(),)))
                     done = [a for a in active if a.ready()]
@@ -166,6 +173,8 @@ class Session:
         if sm.error:
             rep.inconc('%s: %s: %s' % (name, sm.error[0], sm.error[1]))
             rep.obligation(name, 'inconclusive', reason=sm.error[1])
+            # violations found before the exploration stopped are still violations
+            self.last_violations = [(label, sc, st, name) for (label, sc, st) in sm.violations]
             return None
         nb = sm.status.get('bound', 0)
         if nb:
